@@ -94,7 +94,7 @@ PROPS = {
         ],
     },
     'C09': {
-        'contracts': [PTYC + 'isalive', PTYC + 'wait', PTYC + 'terminate', PTYC + 'close', POP + 'wait'],
+        'contracts': [PTYC + 'isalive', PTYC + 'wait', PTYC + 'terminate', PTYC + 'close', POP + 'wait', 'pexpect.run.run'],
         'assumptions': [
             "ptyprocess 0.7.0 (contracts written from its source): isalive() returns False exactly when the child has been reaped and then freezes status/exitstatus/signalstatus at the child's real fate; wait() likewise; close(force) closes the descriptor and reaps the child or raises PtyProcessError",
             'that waitpid reports the real fate of the child is the kernel / ptyprocess; run() with withexitstatus is covered under C12',
